@@ -69,7 +69,7 @@ def unregister (keys : List KeyInfo) (key : String) : List KeyInfo :=
 def one (keys : List KeyInfo) (key e f : String) : Option String := do
   let e ← source e
   let f ← source f
-  pure (out (effective keys (fun k => if k = key then e else none) (fun k => if k = key then f else none) key))
+  pure (out (effective keys Gen.allowEmptyEnv (fun k => if k = key then e else none) (fun k => if k = key then f else none) key))
 
 def handle (st : S) : List String → Option (S × String)
   | ["cfg", "keys"] => some (st, ",".intercalate (Gen.keys.map fun i => i.key ++ ":" ++ i.kind.name))
@@ -86,7 +86,7 @@ def handle (st : S) : List String → Option (S × String)
     | some v => some ({ st with file := (key, v) :: st.file }, "ok")
     | none => some (st, "bad-args")
   | ["cfg", "dump"] =>
-    some (st, ";".intercalate ((effectiveTable Gen.keys (ofList st.env) (ofList st.file)).map fun p => p.1 ++ "=" ++ out p.2))
+    some (st, ";".intercalate ((effectiveTable Gen.keys Gen.allowEmptyEnv (ofList st.env) (ofList st.file)).map fun p => p.1 ++ "=" ++ out p.2))
   | ["cfg", "validate-nil"] => some (st, (validateDb (fun _ => true) none).name)
   | ["cfg", "validate", eng, sqE, host, port, user, db, prep, prepE, prepX] =>
     let r : Option String := do
